@@ -116,6 +116,51 @@ def run(ctx: core.Check):
             toolrun.report(ctx, tr, module="Wire_Trace", label="grammar", keyfn=keyfn)
             tr = toolrun.Trace()
     ctx.cov["generated_descriptions_refused_by_create"] = refused
+    # histories of inline dependency descriptions in ONE process: the parent's bytes are the encoding of the parent description with
+    # the child written as the literal bytes the child description encodes to (the child is judged by its own event) - whatever
+    # was created before, and also when the caller keeps ONE description object, changes it and creates again
+    io_, _ = toolrun.lib()
+    WID = [0, 23, 24, 255, 256, 65535, 65536, 2**32 - 1, 2**32]
+
+    def inline_pair(kk, seqc):
+        child = wiregen.base()
+        child["SUIT_Envelope_Tagged"]["suit-manifest"]["suit-manifest-sequence-number"] = seqc
+        child["SUIT_Envelope_Tagged"]["suit-manifest"]["suit-common"]["suit-components"] = [["M", kk % 7, 4096 * (kk % 5)]]
+        parent = wiregen.base()
+        parent["SUIT_Envelope_Tagged"]["suit-manifest"]["suit-manifest-sequence-number"] = kk
+        parent["SUIT_Envelope_Tagged"]["suit-integrated-dependencies"] = {"#dep.suit": child}
+        return parent, child
+
+    def judged(parent, child, data, scn):
+        cdata = toolrun.create_lib(child)
+        wire_event(ctx, tr, child, cdata, dict(scn, level="child"))
+        lit = copy.deepcopy(parent)
+        lit["SUIT_Envelope_Tagged"]["suit-integrated-dependencies"]["#dep.suit"] = cdata.hex()
+        if wire_event(ctx, tr, lit, data, dict(scn, level="parent")):
+            ctx.nontriv(("inline", json.dumps(scn, sort_keys=True)))
+
+    for k in range(45 if ctx.quick else 1500):
+        parent, child = inline_pair(k, WID[k % len(WID)] + k // len(WID))
+        try:
+            data = toolrun.create_lib(parent)
+        except Exception as e:
+            ctx.observe(f"create refused an inline dependency description: {type(e).__name__}")
+            continue
+        judged(parent, child, data, {"origin": "inline-history", "k": k})
+        if k % 3 == 0:
+            kept = copy.deepcopy(parent)
+            try:
+                io_.prepare_suit_data(kept)
+                kept_child = kept["SUIT_Envelope_Tagged"]["suit-integrated-dependencies"]["#dep.suit"]
+                kept_child["SUIT_Envelope_Tagged"]["suit-manifest"]["suit-manifest-sequence-number"] = WID[(k + 4) % len(WID)] + 1
+                data2 = io_.prepare_suit_data(kept)
+            except Exception as e:
+                ctx.observe(f"a kept description object cannot be created from twice: {type(e).__name__}")
+                continue
+            judged(copy.deepcopy(kept), copy.deepcopy(kept_child), data2, {"origin": "inline-kept-object", "k": k})
+        if len(tr.events) > 700:
+            toolrun.report(ctx, tr, module="Wire_Trace", label="inline", keyfn=keyfn)
+            tr = toolrun.Trace()
     # repository examples
     ex = core.REPO / "examples" / "input_files"
     wd = d / "examples"
